@@ -19,6 +19,7 @@ const (
 	ckRaiseTbl
 	ckNil
 	ckFalse
+	ckCoroutine // the handler itself creates, resumes, wraps and closes coroutines
 	ckNumKinds
 )
 
@@ -35,6 +36,17 @@ func gridCloser(id string, kind int) Expr {
 		body = append(body, &CallStmt{Call: C(N("error"), S("from-"+id), I(0))})
 	case ckRaiseTbl:
 		body = append(body, &CallStmt{Call: C(N("error"), &Table{Items: []TItem{{NameKey: "from", Val: S(id)}}})})
+	case ckCoroutine:
+		body = append(body,
+			&Local{Names: []string{"hco"}, Exprs: []Expr{C(co("create"), &Func{Params: []string{"a"}, Body: []Stmt{
+				&Local{Names: []string{"b"}, Exprs: []Expr{C(co("yield"), B("+", N("a"), I(1)))}},
+				&Return{Exprs: []Expr{B("*", N("b"), I(2))}},
+			}})}},
+			Emit(S("close-co-1"), S(id), C(co("resume"), N("hco"), I(1))),
+			Emit(S("close-co-2"), S(id), C(co("resume"), N("hco"), I(5)), C(co("status"), N("hco"))),
+			Emit(S("close-co-3"), S(id), C(co("close"), C(co("create"), &Func{}))),
+			Emit(S("close-co-4"), S(id), C(C(co("wrap"), &Func{Body: []Stmt{&Return{Exprs: []Expr{I(7)}}}}))),
+		)
 	}
 	return C(N("setmetatable"), &Table{Items: []TItem{{NameKey: "id", Val: S(id)}}},
 		&Table{Items: []TItem{{NameKey: "__close", Val: &Func{Params: []string{"self", "e"}, Body: body}}}})
@@ -226,7 +238,7 @@ func CloseGrid(depth int) []GridCase {
 		name += exitNames[ex] + fmt.Sprintf("/outer%d/inner%d/kinds%v", nOuter, nInner, kinds)
 		return GridCase{Name: name, Block: append(prelude(), append(stmts, Emit(S("program-end")))...)}, true
 	}
-	kindSets := [][]int{{ckPlain}, {ckPlain, ckRaiseStr}, {ckRaiseTbl, ckPlain}, {ckNil, ckPlain, ckFalse}, {ckRaiseStr, ckRaiseTbl}}
+	kindSets := [][]int{{ckPlain}, {ckPlain, ckRaiseStr}, {ckRaiseTbl, ckPlain}, {ckNil, ckPlain, ckFalse}, {ckRaiseStr, ckRaiseTbl}, {ckCoroutine, ckPlain}}
 	rec = func(levels []int) {
 		if len(levels) == depth {
 			for ex := 0; ex < exNumKinds; ex++ {
